@@ -566,12 +566,13 @@ SimRegistrar tgreg(&tgscen);
 C20IPlan iplans[3];
 int nimages;
 int images_sequential;
+int decimal_comma;
 char ipaths[3][280];
 C20IPlan iplan;  // the image being checked
 bool written;
 const char *no_faults[] = {nullptr};
-enum { PI_SINGLE_ROW = 0, PI_SINGLE_COL, PI_NONSQUARE, PI_WIDE, PI_CONCURRENT, PI_SEQUENTIAL };
-const char *iprobe_names[] = {"single_row", "single_column", "non_square", "width_above_4000", "images_written_concurrently", "images_written_one_after_another", nullptr};
+enum { PI_SINGLE_ROW = 0, PI_SINGLE_COL, PI_NONSQUARE, PI_WIDE, PI_CONCURRENT, PI_SEQUENTIAL, PI_DECIMAL_COMMA };
+const char *iprobe_names[] = {"single_row", "single_column", "non_square", "width_above_4000", "images_written_concurrently", "images_written_one_after_another", "process_locale_with_decimal_comma_adopted", nullptr};
 const char *fmtname[] = {"PPM", "PGM", "PFM<float>", "PFM<vec3f>", "PFM<vec3fa>", "PFM<vec4f>"};
 
 void ireset()
@@ -602,6 +603,7 @@ void iplan_fn(int tier)
     iplans[i] = iplan;
   }
   images_sequential = nimages > 1 && sim_plan(3) == 0;
+  decimal_comma = sim_plan(4) == 0;
   if (nimages > 1)
     sim_probe(images_sequential ? PI_SEQUENTIAL : PI_CONCURRENT);
 }
@@ -707,7 +709,7 @@ void idescribe(char *buf, size_t n)
   for (int i = 0; i < nimages; i++)
     k += snprintf(buf + k, n - k, "%s{\"format\": \"%s\", \"width\": %d, \"height\": %d, \"pattern_seed\": %d}", i ? "," : "", fmtname[iplans[i].format],
                   iplans[i].w, iplans[i].h, iplans[i].seed);
-  snprintf(buf + k, n - k, "], \"written_concurrently\": %d, \"written_one_after_another\": %d}", nimages > 1 && !images_sequential, images_sequential);
+  snprintf(buf + k, n - k, "], \"written_concurrently\": %d, \"written_one_after_another\": %d, \"decimal_comma_locale\": %d}", nimages > 1 && !images_sequential, images_sequential, decimal_comma);
 }
 const SimScenario iscen = {"c20img", "C20", LANE_DEBUG, ireset, iplan_fn, c20img_run, icheck, stuck, idescribe, no_faults, iprobe_names, 1, 0};
 SimRegistrar ireg(&iscen);
@@ -740,6 +742,12 @@ void c20t_saved()
 const C20IPlan *c20i_plan() { return &iplans[0]; }
 int c20i_count() { return nimages; }
 int c20i_one_after_another() { return images_sequential; }
+int c20i_decimal_comma() { return decimal_comma; }
+void c20i_locale_result(int adopted)
+{
+  if (adopted)
+    sim_probe(PI_DECIMAL_COMMA);
+}
 const C20IPlan *c20i_plan_n(int i) { return &iplans[i]; }
 const char *c20_path_n(int i) { return ipaths[i]; }
 void c20i_written()
